@@ -16,6 +16,11 @@ type State struct {
 	ctr   *Term
 	ghost map[string]Val // ghost variables (loop ghosts, call ghosts)
 	epoch string         // suffix for lazily created heap symbols
+	// conditions on which the state should be split into two specialised states
+	// at the next statement boundary (e.g. "append was in place")
+	pendingSplits []*Term
+	// ghost results of the latest call per callee on this path: "Callee$name" -> instance
+	callGhosts map[string]*GhostInst
 }
 
 func newState() *State {
@@ -34,6 +39,73 @@ func (s *State) clone() *State {
 		n.ghost[k] = v
 	}
 	n.facts = append([]*Term(nil), s.facts...)
+	n.pendingSplits = append([]*Term(nil), s.pendingSplits...)
+	n.callGhosts = copyGhosts(s.callGhosts)
+	return n
+}
+
+func copyGhosts(m map[string]*GhostInst) map[string]*GhostInst {
+	if m == nil {
+		return nil
+	}
+	o := make(map[string]*GhostInst, len(m))
+	for k, v := range m {
+		o[k] = v
+	}
+	return o
+}
+
+func (s *State) setCallGhost(key string, g *GhostInst) {
+	if s.callGhosts == nil {
+		s.callGhosts = map[string]*GhostInst{}
+	}
+	s.callGhosts[key] = g
+}
+
+// specialize returns a copy of s in which the boolean term c is replaced by the
+// constant v everywhere (and c, resp. not c, is assumed).
+func (s *State) specialize(c *Term, v bool) *State {
+	m := map[int]*Term{c.id: BoolLit(v)}
+	memo := map[int]*Term{}
+	sub := func(t *Term) *Term { return substMemo(t, m, memo) }
+	n := &State{vars: make(map[types.Object]Val, len(s.vars)), heap: make(map[string]*Term, len(s.heap)), ghost: make(map[string]Val, len(s.ghost)), epoch: s.epoch}
+	subVal := func(x Val) Val {
+		o := Val{T: x.T, C: make([]*Term, len(x.C)), Aux: x.Aux}
+		for i, t := range x.C {
+			o.C[i] = sub(t)
+		}
+		return o
+	}
+	for k, x := range s.vars {
+		n.vars[k] = subVal(x)
+	}
+	for k, x := range s.ghost {
+		n.ghost[k] = subVal(x)
+	}
+	for k, t := range s.heap {
+		n.heap[k] = sub(t)
+	}
+	n.ctr = sub(s.ctr)
+	n.callGhosts = copyGhosts(s.callGhosts)
+	for _, f := range s.facts {
+		g := sub(f)
+		if g != True {
+			n.facts = append(n.facts, g)
+		}
+	}
+	if v {
+		n.assume(c)
+	} else {
+		n.assume(Not(c))
+	}
+	for _, p := range s.pendingSplits {
+		if p != c {
+			q := sub(p)
+			if q != True && q != False {
+				n.pendingSplits = append(n.pendingSplits, q)
+			}
+		}
+	}
 	return n
 }
 
@@ -461,6 +533,11 @@ func mergeStates(c *Term, a, b *State, nbase int) *State {
 		out.heap[k] = Ite(c, ha, hb)
 	}
 	out.ctr = Ite(c, a.ctr, b.ctr)
+	for k, g := range a.callGhosts {
+		if b.callGhosts[k] == g {
+			out.setCallGhost(k, g)
+		}
+	}
 	// facts: common prefix + disjunction of the rests
 	n := nbase
 	if n > len(a.facts) {
